@@ -5,7 +5,8 @@ import vlib
 
 CLOSURE = ["Model/Lock.v", "Proofs/LockP.v", "Proofs/LockPrefix.v"]
 OBLIGATIONS = ["repo_facts_wellformed", "repo_well_locked", "repo_wrappers_registered", "repo_no_escape", "repo_race_free",
-               "repo_one_lock_at_a_time", "repo_fetchers_confined", "repo_no_blocking_send_under_lock"]
+               "repo_lock_order_acyclic", "repo_fetchers_confined", "repo_no_blocking_send_under_lock",
+               "repo_no_recursive_lock", "repo_declared_guards_inferred"]
 L2_OVERLAY = {"internal/layer2/zz_verif.go": os.path.join(vlib.VERIF, "harness/internal/layer2/zz_verif.go")}
 
 
@@ -64,8 +65,14 @@ def run(ctx):
         if diag.get("D_no_escape") != "true":
             broken.append("repo_no_escape: " + "; ".join("%s returns the guarded %s without copying while it is changed in place elsewhere" % p
                                                          for p in pairs(diag.get("D_escaping", ""))))
-        if diag.get("D_one_lock") != "true":
-            broken.append("repo_one_lock_at_a_time: %s hold two mutexes at once or invoke a callback under an inner mutex" % diag.get("D_nested"))
+        if diag.get("D_lock_order") != "true":
+            broken.append("repo_lock_order_acyclic: lock-order edges %s contain a cycle, or %s invoke a callback of unknown target under an inner mutex"
+                          % (diag.get("D_lock_edges"), diag.get("D_cb_under_lock")))
+        if diag.get("D_no_recursive") != "true":
+            broken.append("repo_no_recursive_lock: %s acquire a mutex on a call path on which it is already held (sync.Mutex/RWMutex are not reentrant; "
+                          "a nested RLock deadlocks once a writer is queued)" % diag.get("D_reacquirers"))
+        if diag.get("D_declared_inferred") != "true":
+            broken.append("repo_declared_guards_inferred: a declared guarded field is no longer written under its mutex anywhere")
         if diag.get("D_confined") != "true" or diag.get("D_wired") != "true":
             broken.append("repo_fetchers_confined: fetchers touching unguarded receiver fields: %s; wired=%s" % (diag.get("D_unconfined"), diag.get("D_wired")))
         if diag.get("D_send") != "true":
@@ -184,5 +191,5 @@ def run(ctx):
                "race rounds: 240/300 (thorough 1200/1500) generated events per round delivered by 4-8 goroutines through the real k8s.Listener wrappers, 3 reconciler-like goroutines "
                "consuming CountersForPool / GetStatus / PeersForService (+ the spam loop's gratuitous), under go test -race, final state vs serial replay in recorded acquisition order; "
                "non-trivial = final state holds at least one assignment / announcement; plus the spam-queue schedules (announcer built as New() with a small queue and the REAL spamLoop: "
-               "full queue with a waiting handler vs GetStatus/shouldAnnounce, and a re-processing burst across a 1.1 s loop period under a 3 s no-progress watchdog); distinct by seed+state; plus the 8 vm_compute obligations on the facts regenerated from the Go AST",
+               "full queue with a waiting handler vs GetStatus/shouldAnnounce, and a re-processing burst across a 1.1 s loop period under a 3 s no-progress watchdog); distinct by seed+state; plus the 10 vm_compute obligations on the facts regenerated from the Go AST",
                [{"seed": r["in"]["seed"], "workers": r["in"]["workers"], "events": r["in"]["events"]} for r in allrounds[:3]], search=search)
